@@ -19,6 +19,18 @@ import core
 sys.path.insert(0, str(Path(__file__).resolve().parent.parent / "translate"))
 import settings as settings_T  # noqa: E402
 
+MODELLED = ['evo/tools/settings.py:write_atomically',
+            'evo/tools/settings.py:write_to_json_file',
+            'evo/tools/settings.py:reset',
+            'evo/tools/settings.py:initialize_if_needed',
+            'evo/tools/settings.py:update_if_outdated',
+            'evo/tools/settings.py:merge_dicts',
+            'evo/tools/settings.py:SettingsContainer.from_json_file',
+            'evo/main_config.py:set_config',
+            'evo/main_config.py:merge_json_union',
+            'evo/main_config.py:show',
+            'evo/main_config.py:main']
+
 RULE = ("cases = trace(scenario, initial home) for 9 scenarios (import, reset all/subset, set, merge; through the "
         "functions and through evo_config's main()) x initial homes (fresh, dir only, version only, initialised, "
         "outdated, outdated lacking keys); crash(scenario, home, k, torn) for every step k of every trace (and torn in "
@@ -640,6 +652,7 @@ def shrink(case):
 
 def check(ctx):
     lean = core.lean_side(ctx.prop, ctx.tier, pre_build=settings_T.generate)
+    core.drift(ctx, MODELLED)
     cases = list(gen_cases(ctx))
     evaluate(ctx, cases)
     core.shrink_all(ctx, shrink, evaluate, budget=40)
